@@ -1,6 +1,7 @@
 """C13 — meaning is invariant under surface syntax of schema and document."""
 import json, re
 import vcommon as vc
+import unquote_cases as UQ
 import jsight as J
 
 
@@ -95,7 +96,7 @@ def respell_doc(rng, d):
 
 
 def run(ctx):
-    st = vc.prepare(ctx, need_model=False)
+    st = vc.prepare(ctx)
     if not st["impl"]:
         ctx.report("harness failed to build: " + json.dumps(st["logs"])[:1500], "build", st["logs"], no_input=True)
         return
@@ -106,7 +107,7 @@ def run(ctx):
                          "# user comments and ### blocks, inline vs multi-line annotations, notes, quoted vs bare rule names, trailing comma in the rule object, rule order; Check verdict, AST "
                          "(comments aside, rules as a set) and the verdicts of a document set must coincide with the base spelling; documents re-spelled by whitespace, property order and "
                          "\\\\uXXXX escapes must get the same verdict; non-trivial = schema with >= 2 annotated nodes")
-    ctx.assumptions += ["intrinsic oracle (equality across spellings); the Coq side (respelling lemmas on the schema scanner model) is not built: partial"]
+    ctx.assumptions += ["intrinsic oracle (equality across spellings); document half: Text/Unquote.v (escape spellings) and Json grammar (blanks, member order) are modelled and proved; schema half: intrinsic oracle only (the schema scanner is not modelled): partial"]
     groups = []
     n = 600 if quick else 12000
     for _ in range(n):
@@ -168,6 +169,7 @@ def run(ctx):
             if what and len(ctx.violations) < 40:
                 ctx.report("%s; base spelling %r, re-spelled %r (layout %s)" % (what, res[0][1][:120], text[:160], {k: v for k, v in lay.items() if v != BASE[k]}), "c13:" + text,
                            {"base": res[0][1], "respelled": text, "layout": lay, "base_results": base[:2], "respelled_results": r[:2]}, case={"schema": text})
+    UQ.check_unquote(ctx, st, quick, "c13")
     ctx.extra["schemas"] = len(groups)
     ctx.extra["spellings"] = len(lines)
     ctx.samples.append({"base": json.loads(lines[0])["schema"], "respelled": json.loads(lines[2])["schema"]})
